@@ -542,7 +542,7 @@ func Explore(fn *ssa.Function, b *ssa.BasicBlock, idx int, pred *ssa.BasicBlock,
 				}
 			}
 		}
-		if st.Visit[b] > 1 {
+		if st.Visit[b] > 1 || st.Flags["assumed-dominators"] == 1 {
 			for _, ins := range b.Instrs {
 				if v, ok := ins.(ssa.Value); ok {
 					ptr := fmt.Sprintf("%p", v)
@@ -1365,6 +1365,10 @@ func (st *State) assumeDominating(b *ssa.BasicBlock) {
 		if iff == nil || len(d.Succs) != 2 || d.Succs[0] == d.Succs[1] {
 			continue
 		}
+		if readsMemory(iff.Cond, 0) {
+			continue // what a load saw may have been overwritten since
+		}
+		st.Flags["assumed-dominators"] = 1
 		cut := map[edge]bool{{d, d.Succs[0]}: true, {d, d.Succs[1]}: true}
 		r0 := d.Succs[0] == b || reachableFrom(d.Succs[0], cut)[b]
 		r1 := d.Succs[1] == b || reachableFrom(d.Succs[1], cut)[b]
@@ -1375,4 +1379,27 @@ func (st *State) assumeDominating(b *ssa.BasicBlock) {
 			st.assume(iff.Cond, false)
 		}
 	}
+}
+
+// readsMemory: the expression contains a load (its value is not fixed by SSA alone).
+func readsMemory(v ssa.Value, depth int) bool {
+	if depth > 5 {
+		return true
+	}
+	switch x := v.(type) {
+	case *ssa.UnOp:
+		if x.Op == token.MUL || x.Op == token.ARROW {
+			return true
+		}
+		return readsMemory(x.X, depth+1)
+	case *ssa.BinOp:
+		return readsMemory(x.X, depth+1) || readsMemory(x.Y, depth+1)
+	case *ssa.Convert:
+		return readsMemory(x.X, depth+1)
+	case *ssa.ChangeType:
+		return readsMemory(x.X, depth+1)
+	case *ssa.Extract:
+		return false
+	}
+	return false
 }
